@@ -18,7 +18,9 @@ pub mod c12;
 pub mod c13;
 pub mod c15;
 pub mod c16;
+pub mod c17;
 pub mod c18;
+pub mod c19;
 pub mod c20;
 pub mod guards;
 pub mod quotes;
@@ -49,7 +51,9 @@ pub fn all() -> Vec<Property> {
         Property { id: "C13", rule: c13::RULE, assumptions: c13::ASSUMPTIONS, suites: c13::suites() },
         Property { id: "C15", rule: c15::RULE, assumptions: c15::ASSUMPTIONS, suites: c15::suites() },
         Property { id: "C16", rule: c16::RULE, assumptions: c16::ASSUMPTIONS, suites: c16::suites() },
+        Property { id: "C17", rule: c17::RULE, assumptions: c17::ASSUMPTIONS, suites: c17::suites() },
         Property { id: "C18", rule: c18::RULE, assumptions: c18::ASSUMPTIONS, suites: c18::suites() },
+        Property { id: "C19", rule: c19::RULE, assumptions: c19::ASSUMPTIONS, suites: c19::suites() },
         Property { id: "C20", rule: c20::RULE, assumptions: c20::ASSUMPTIONS, suites: c20::suites() },
     ]
 }
